@@ -23,7 +23,7 @@ import (
 // signs any subset of the blocks, at least one key signs twice — decided for the non-aggregating scheme only:
 // a finalized BLS proof encodes every rest block in the key space left over by the earlier blocks, so it
 // cannot express a double signer at all and gblsminsig's Finalize panics with a documented "BUG:" message
-// when given one. That is recorded as an observation (counter), not as a C13 verdict; see FINDINGS.md.
+// when given one. That is recorded as an observation (counter), not as a C13 verdict; see doc.go.
 
 type finCase struct {
 	sets    [3]set // main, rest-a, rest-b
